@@ -149,6 +149,70 @@ def r18_2(F, R, tier):
     R.floor("R18.10", "recursion cycles among the reachable box-language functions", nrec, 3)
 
 
+def r18_11(F, R):
+    from ..cfg import Defs
+    from ..dataflow import op_place
+    from .common import producers
+    R.rule("R18.11", "byte offsets are byte offsets: the source positions the box lexer keeps (Lexer.l, Lexer.u, ClosingParen.source_idx, Str.start, "
+                     "Str.end — all used to slice the source string) are never produced from a *character* count: the index of an enumerate() "
+                     "over chars(), or a count() of characters. Such a value equals the byte offset only for ASCII text; after a multi-byte "
+                     "character the slice is cut at the wrong place (mismatched brackets, or a panic inside a character)")
+    SINKS = {("lang::lexer::Lexer", "l"), ("lang::lexer::Lexer", "u"), ("lang::lexer::ClosingParen", "source_idx"), ("lang::Str", "start"), ("lang::Str", "end")}
+
+    def charcount(pr):
+        bad = []
+        for tag, name, ty in pr:
+            if tag != "call":
+                continue
+            ty = ty or ""
+            if name.endswith("Enumerate as core::iter::traits::iterator::Iterator>::next") and "Chars" in ty and "CharIndices" not in ty:
+                bad.append("the index of chars().enumerate()")
+            if name.split("::")[-1] == "count" and ("Chars" in ty or "CharIndices" in ty):
+                bad.append("a count() of characters")
+        return bad
+    n = 0
+    for fn in sorted(F.fns.values(), key=lambda f: f.name):
+        if not fn.name.startswith("boxworks::lang::") and "boxworks::lang::" not in fn.name.split(" as ")[0]:
+            continue
+        if "::tests::" in fn.name:
+            continue
+        D = None
+        k_fn = 0
+        for bi, b in enumerate(fn.blocks):
+            if b.get("cleanup"):
+                continue
+            for st in b["s"]:
+                if st["k"] != "=":
+                    continue
+                cands = []
+                rv = st["rv"]
+                if rv["k"] == "agg" and rv.get("adt"):
+                    for fname, o in zip(rv.get("fields") or [], rv["ops"]):
+                        if any(str(rv["adt"]).endswith(a) and fname == f for a, f in SINKS):
+                            cands.append((str(rv["adt"]).split("::")[-1] + "." + fname, [o]))
+                lhs = st["lhs"]
+                if lhs["p"] and isinstance(lhs["p"][-1], dict) and "f" in lhs["p"][-1]:
+                    base_ty = fn.local_ty(lhs["l"])
+                    fname = lhs["p"][-1].get("n")
+                    if len([e for e in lhs["p"] if isinstance(e, dict) and "f" in e]) == 1 and any(a in base_ty and fname == f for a, f in SINKS):
+                        from ..dataflow import rv_operands
+                        cands.append((base_ty.split("::")[-1].split("<")[0] + "." + fname, list(rv_operands(rv))))
+                for what, ops in cands:
+                    D = D or Defs(fn)
+                    n += 1
+                    inst = "%s/%s#%d" % (strip_generics(fn.name).replace("boxworks::lang::", ""), what, k_fn)
+                    k_fn += 1
+                    bad = []
+                    for o in ops:
+                        bad += charcount(producers(fn, D, o))
+                    if bad:
+                        R.violation("R18.11", inst, "%s stores %s, a character count, into the byte offset %s: after a multi-byte character the source is sliced "
+                                    "at the wrong position" % (fn.name, sorted(set(bad))[0], what), fn.loc(st))
+                    else:
+                        R.ok("R18.11", inst, "no character count among the producers", fn.loc(st), how="provenance")
+    R.floor("R18.11", "stores into byte-offset fields of the box lexer", n, 12)
+
+
 def r18_3(F, R):
     from ..facts import callee_name
     from ..dataflow import op_place
@@ -415,6 +479,7 @@ def r18_9(F, R):
 
 def run(F, R, tier):
     r18_1(F, R)
+    r18_11(F, R)
     r18_9(F, R)
     r18_8(F, R)
     r18_6(F, R)
